@@ -13,7 +13,7 @@ CHECKS = {
              "(exhaustive for that finite sub-domain) and every compatibility predicate is compared with dimension vectors computed by an "
              "independent reader of the definition files; spellings, compound units with integer/rational exponents, closure laws and "
              "registry configurations are sampled. Establishes the property on the enumerated pairs, samples the rest.",
-        note="Trusts R (vf/oracle/defreader.py, no pint code) as reader of default_en.txt; compound units, spellings and configurations are sampled, not exhausted. Later additions: keyword-order permutations for ureg.check, generated registries loaded through every path of C10 (file, @import, on-disk caches), cross-process warm-cache listing check.",
+        note="Trusts R (vf/oracle/defreader.py, no pint code) as reader of default_en.txt; compound units, spellings and configurations are sampled, not exhausted. Later additions: keyword-order permutations for ureg.check, generated registries loaded through every path of C10 (file, @import, on-disk caches), cross-process warm-cache listing check. Round 7: predicates also with units/quantities of another registry.",
         design="5/C01"),
     "C02": dict(
         technique="bounded-exhaustive enumeration of same-dimension unit pairs in Fraction/Decimal/float registries + Hypothesis compound units; differential oracle = exact rational ratio from an independent definition reader; algebraic laws (identity, inverse, path independence)",
@@ -30,7 +30,7 @@ CHECKS = {
              "Fraction registry both evaluations and the reference model must agree exactly (value, dimension, error class, no float contamination); in the "
              "float registry agreement is required within a propagated error bound, away from ties. Reflected and in-place forms (scalars and ndarrays) "
              "must equal the plain form and leave every operand but the in-place target untouched. Sampling only.",
-        note="Leaf units are restricted to rational, positively scaled multiplicative units; ill-conditioned float trees (near-zero divisors, nested powers > 4) are skipped and counted. One known finding (int ** negative power) is excluded by construction in the tree tier and reported by the forms tier. Later additions: comparisons across offset units (offsetcmp), exact Fraction magnitudes in the float registry, auto_reduce_dimensions configuration, bare-number ordering/equality. Round 6: in-place forms that NumPy refuses (integer target, wider operand) leave the target denoting what it denoted (judged physically).",
+        note="Leaf units are restricted to rational, positively scaled multiplicative units; ill-conditioned float trees (near-zero divisors, nested powers > 4) are skipped and counted. One known finding (int ** negative power) is excluded by construction in the tree tier and reported by the forms tier. Later additions: comparisons across offset units (offsetcmp), exact Fraction magnitudes in the float registry, auto_reduce_dimensions configuration, bare-number ordering/equality. Round 6: in-place forms that NumPy refuses (integer target, wider operand) leave the target denoting what it denoted (judged physically). Round 7: in-place chains (looked-at quantity changed by *=, /=, **= over exponents -3..3, then used again).",
         design="5/C03"),
     "C04": dict(
         technique="bounded-exhaustive enumeration of unit containers over a 3-letter alphabet (all ordered pairs, sampled triples) in 3 exponent types x 3 layers against a dict model of the free abelian group; Hypothesis containers over real unit names; Hypothesis integer matrices for pi-theorem with own Fraction rank/null-space oracle",
@@ -38,7 +38,7 @@ CHECKS = {
              "UnitsContainer, ParserHelper and Unit/Quantity layers for int/float, Decimal and Fraction exponents; each result must equal the dict model, "
              "carry no zero entry, hash equal when equal and leave operands untouched. Dimensionality homomorphism is checked against R. pi_theorem results "
              "must be dimensionless, independent and of size n - rank. Exhaustive over the pair domain in the thorough tier, seed-strided in quick.",
-        note="Float/Decimal exponents restricted to dyadic rationals (no rounding artefacts). Integrality of pi-theorem exponents is not part of the statement and not asserted. Later additions: in-pint dimensionality homomorphism and exponent types, dimensionality of containers of derived dimension names, mixed ParserHelper/UnitsContainer/dict operands.",
+        note="Float/Decimal exponents restricted to dyadic rationals (no rounding artefacts). Integrality of pi-theorem exponents is not part of the statement and not asserted. Later additions: in-pint dimensionality homomorphism and exponent types, dimensionality of containers of derived dimension names, mixed ParserHelper/UnitsContainer/dict operands. Round 7: container editing helpers (add/remove/rename, ParserHelper * str) on hashed operands; powers whose product underflows leave no entry.",
         design="5/C04"),
     "C05": dict(
         technique="Hypothesis pairs/triples of quantities per dimension class with exact re-expression in other units (Fraction registry); oracle = exact base values and affine maps from an independent definition reader; equivalence, hash and trichotomy laws",
@@ -57,7 +57,7 @@ CHECKS = {
              "from nonmult.rst) or OffsetUnitCalculusError. ndarray in-place forms must equal the functional forms and leave the other operand untouched; "
              "compound units containing an offset unit never convert to another dimension. Log units are checked against x_lin = scale*base**(x/factor), "
              "inverses, scalar vs in-place array conversion, and well-formedness of arithmetic results. Sampling over a small finite unit set x random magnitudes.",
-        note="Arithmetic on logarithmic units is documented only through conversions: validity predicate, one known finding (delta_<log unit> undefined). Later additions: right operands with a dimensionless scale in their units, parse_units(text, as_delta=...) relations for compound and powered offset strings. Round 6: sub-check redef - an offset unit whose definition is replaced by a redefining context or a second define() follows the affine map in force (absolute, delta, difference, offset + delta, alias) in Fraction/float/Decimal registries.",
+        note="Arithmetic on logarithmic units is documented only through conversions: validity predicate, one known finding (delta_<log unit> undefined). Later additions: right operands with a dimensionless scale in their units, parse_units(text, as_delta=...) relations for compound and powered offset strings. Round 6: sub-check redef - an offset unit whose definition is replaced by a redefining context or a second define() follows the affine map in force (absolute, delta, difference, offset + delta, alias) in Fraction/float/Decimal registries. Round 7: sub-check order (ordering across offset and logarithmic units); refused in-place conversions always checked.",
         design="5/C06"),
     "C07": dict(
         technique="bounded-exhaustive enumeration of expression trees x spelling variants with a Python-operator evaluation of the tree as oracle; Hypothesis larger trees in float/Decimal/Fraction registries; mutation-based malformed inputs; audit-hook monitored parsing of hostile and random strings; coverage-guided atheris/libFuzzer campaigns (thorough tier) with an audit-hook, a Python-grammar differential and a structural oracle inside the target",
@@ -75,7 +75,7 @@ CHECKS = {
              "mutated and random identifiers must be rejected; case variants are checked with case_sensitive=False per call and per registry and under 4 hash "
              "seeds in sub-processes; offset units in compound strings x as_delta/default_as_delta; lookup histories must answer like a fresh registry. "
              "The cross product is exhaustive; the rest is sampled.",
-        note="Among several genuine readings of one string only membership and determinism are asserted (the statement does not rank them). Two known findings (double prefixes) are listed in known_findings.json. Later additions: spellings added after construction (@alias / define / load_definitions) in case-sensitive and case-insensitive registries.",
+        note="Among several genuine readings of one string only membership and determinism are asserted (the statement does not rank them). Two known findings (double prefixes) are listed in known_findings.json. Later additions: spellings added after construction (@alias / define / load_definitions) in case-sensitive and case-insensitive registries. Round 7: every entry point taking a unit string follows case_sensitive=False / default_as_delta=False registries.",
         design="5/C08"),
     "C09": dict(
         technique="complete enumeration of every canonical unit x 7 format specs x {long, ~} with layout-specific inverse parsers (structural oracle) and parse-back round trips; Hypothesis compound units / quantities in float, Decimal and Fraction registries; op-sequence check of default_format changes on long-lived objects",
@@ -94,7 +94,7 @@ CHECKS = {
              "rendered with permuted unit/prefix lines, spacing, comments and literal spellings and loaded from a list of lines, a file, define() calls, a file with "
              "@import and a cold+warm disk cache; every answer must equal the model and agree across paths. (c) One ill-formed statement out of 25 kinds is "
              "inserted at a random place: loading or the first use of the name must raise.",
-        note="Generated contexts are exercised by C11/C12. Units added via define() are not asked for compatible-unit listings (known finding of C13). Later additions: load paths cache_lines / cache_import with decoy definition sets, @defaults, @alias directives, case-insensitive table, power rules in @system, cross-process cache check (xcache). Round 6: faults also through load_definitions on a living registry; references to undefined groups/units; refused @system blocks and refused redefinitions (on_redefinition='raise') leave nothing behind; each fault x path x number type enumerated once; cross-process cache script records every probe separately and covers registries built from lines.",
+        note="Generated contexts are exercised by C11/C12. Units added via define() are not asked for compatible-unit listings (known finding of C13). Later additions: load paths cache_lines / cache_import with decoy definition sets, @defaults, @alias directives, case-insensitive table, power rules in @system, cross-process cache check (xcache). Round 6: faults also through load_definitions on a living registry; references to undefined groups/units; refused @system blocks and refused redefinitions (on_redefinition='raise') leave nothing behind; each fault x path x number type enumerated once; cross-process cache script records every probe separately and covers registries built from lines. Round 7: offset units without symbol / with aliases and their delta spellings; block headers with runs of blanks and tabs.",
         design="5/C10"),
     "C11": dict(
         technique="Hypothesis over bundled and randomly generated contexts (rule graphs with monomial equations, parameters, overlapping rules, redefinitions) x activation forms x stacks; reference oracle = own BFS over dimension vectors (all shortest chains, recency precedence) with exact evaluation of the rule equations using factors from an independent definition reader",
@@ -103,7 +103,7 @@ CHECKS = {
              "contexts passed to to()/ito(), decorator, nested blocks, alias, Context object). The result must equal the exact value of some shortest chain found "
              "by the oracle's BFS with the most recently enabled rule per edge, unreachable targets must raise DimensionalityError, same-dimension conversions are "
              "unchanged, no context may stay active. Redefinitions must apply to the unit and its dependants exactly while active (also nested and with keywords).",
-        note="Parameter inheritance with several enclosing contexts that disagree is under-specified by the statement: skipped and counted. Later additions: derived dimension names in rules; contexts built with from_lines without a to-base function and with Context() + add_transformation; nested contexts that both declare parameters (each rule uses its own context's value); the bundled sp/boltzmann/energy contexts against c, h, k written in the check. Round 6: every bundled-context conversion is repeated on an ndarray magnitude (element-wise equal to the scalar conversions, source untouched).",
+        note="Parameter inheritance with several enclosing contexts that disagree is under-specified by the statement: skipped and counted. Later additions: derived dimension names in rules; contexts built with from_lines without a to-base function and with Context() + add_transformation; nested contexts that both declare parameters (each rule uses its own context's value); the bundled sp/boltzmann/energy contexts against c, h, k written in the check. Round 6: every bundled-context conversion is repeated on an ndarray magnitude (element-wise equal to the scalar conversions, source untouched). Round 7: parameterless contexts at the bottom of the stack.",
         design="5/C11"),
     "C12": dict(
         technique="model-based (stateful) testing: bounded-exhaustive breadth-first enumeration of operation sequences over a 27-letter alphabet on a fresh tiny registry, plus Hypothesis random sequences, each interpreted next to a reference stack model with a probe battery after every step; fault injection through four kinds of invalid activation",
@@ -113,7 +113,7 @@ CHECKS = {
              "get_root_units, to_root_units, get_base_units, prefixed units, compatible-unit listings, number of active contexts) must equal what the model's stack "
              "implies; a failing activation must raise and change nothing; after unwinding, the battery must equal the one recorded before the first activation. "
              "Random sequences up to 25 operations and a shared-Context check (two registries, re-entry with other parameters) complete it.",
-        note="The former known finding (base-units cache across context stacks) is repaired in /repo (1d885d8) and checked like everything else. Units defined while a redefining context is active are C13's clause. Later additions: per-call contexts (to/ito with a context name) in the operation alphabet; on_redefinition='raise' policy observed after every step; activation with an unhashable parameter value (refused or accepted-and-disabled: nothing left behind). Round 6: cold probes (spare units asked once, right after a failed activation: the battery itself warms the caches).",
+        note="The former known finding (base-units cache across context stacks) is repaired in /repo (1d885d8) and checked like everything else. Units defined while a redefining context is active are C13's clause. Later additions: per-call contexts (to/ito with a context name) in the operation alphabet; on_redefinition='raise' policy observed after every step; activation with an unhashable parameter value (refused or accepted-and-disabled: nothing left behind). Round 6: cold probes (spare units asked once, right after a failed activation: the battery itself warms the caches). Round 7: reading of compound unit strings with offset units across contexts; Context objects with an unresolvable rule endpoint.",
         design="5/C12"),
     "C13": dict(
         technique="model-based (stateful) testing with Hypothesis operation sequences: every answer of a long-lived registry is compared with the answer of a twin built fresh from the declarative state (differential against a fresh registry), each question put to an untouched copy of the twin; registry-isolation differential",
@@ -123,7 +123,7 @@ CHECKS = {
              "None, group edits, building and using a second registry). After each state change a twin is built from the definition text plus the logged "
              "definitions and settings; subject and twin must agree on every answer, and a brand-new registry replays the final state. A second tier does the "
              "same on the bundled registry (contexts and systems), a third checks that nothing done to a second registry changes the first.",
-        note="Three known findings are excluded by construction/narrow class: units from define() missing in compatible-unit listings, definitions made inside a redefining context, double prefixes (the base-units cache across context stacks is repaired in /repo, 1d885d8). Deep copy is used to hand every question an untouched twin. Later additions: motifs (enter/leave redefining context, ask-define-ask, failing activation then retry, default_system switches, API context with keyword parameter, to_compact around a late prefix, get_name/get_symbol queries, defined names that also read as prefix + unit). Round 6: sub-check redefine (questions and replaced definitions vs a registry built from the final text; found the stale-cache defect repaired in 7c97a2d); xcache with line-built registries sharing a cache folder.",
+        note="Three known findings are excluded by construction/narrow class: units from define() missing in compatible-unit listings, definitions made inside a redefining context, double prefixes (the base-units cache across context stacks is repaired in /repo, 1d885d8). Deep copy is used to hand every question an untouched twin. Later additions: motifs (enter/leave redefining context, ask-define-ask, failing activation then retry, default_system switches, API context with keyword parameter, to_compact around a late prefix, get_name/get_symbol queries, defined names that also read as prefix + unit). Round 6: sub-check redefine (questions and replaced definitions vs a registry built from the final text; found the stale-cache defect repaired in 7c97a2d); xcache with line-built registries sharing a cache folder. Round 7: listing motif; conversions of one pair with several magnitude types.",
         design="5/C13"),
     "C14": dict(
         technique="complete enumeration of every unit x every declared system against allowed-unit sets and exact factors from an independent definition reader; Hypothesis compound quantities, generated systems (both rule forms, power-of-root units) and model-based group/system edit histories checked against an own closure model",
@@ -133,7 +133,7 @@ CHECKS = {
              "sys.<system>.<name> attribute resolution and dir(), generated systems with 'new' and 'new:old' rules (incl. liter/hectare/gallon/barn as new "
              "base units) are sampled. Group graphs with 'using' chains undergo random add/remove-units/groups histories incl. shortcut-then-cut shapes and "
              "system group edits; members, system members and group/system-restricted compatible units are compared with an own transitive closure after every edit; cyclic 'using' must be refused.",
-        note="Compound quantities under square-root based systems (Planck, atomic) with total exponent > 2 are skipped: intermediate float products underflow. A group using itself is accepted by pint and loops forever (not in the statement; never generated). Later additions: default system asked right after an explicit-system query; partial read views in group histories. Round 6: plural and differently cased attributes of ureg.sys.<system> (case-insensitive registry); refused @system blocks are unknown afterwards and the corrected block can be defined.",
+        note="Compound quantities under square-root based systems (Planck, atomic) with total exponent > 2 are skipped: intermediate float products underflow. A group using itself is accepted by pint and loops forever (not in the statement; never generated). Later additions: default system asked right after an explicit-system query; partial read views in group histories. Round 6: plural and differently cased attributes of ureg.sys.<system> (case-insensitive registry); refused @system blocks are unknown afterwards and the corrected block can be defined. Round 7: header whitespace of generated systems; members equal the using clause.",
         design="5/C14"),
     "C15": dict(
         technique="Hypothesis quantities over the whole registry x every rewriting helper and its in-place twin, with value/dimension oracles from an independent definition reader (exact in the Fraction registry), an R-based proportionality predicate for to_reduced_units and prefix arithmetic for to_compact; registries with auto_reduce_dimensions / autoconvert_to_preferred",
@@ -143,7 +143,7 @@ CHECKS = {
              "functional one. to_reduced_units may keep no two units with proportional dimension; to_compact may change exactly one decimal prefix, must bring "
              "a single first-power unit into [1,1000) when the prefix exists (also for uncertain magnitudes on prefixed units) and return dimensionless/0/NaN/inf "
              "unchanged. Products and quotients in auto_reduce_dimensions / autoconvert_to_preferred registries are checked the same way.",
-        note="Two known findings: to_compact AssertionError for names with two readings (rads, dtex); to_reduced_units with non-terminating merged exponents in float/Decimal registries. to_preferred is not run in the Decimal registry (the MIP solver rejects Decimal). Later additions: pairs of dimensionless units count as mergeable; float-range domain restriction; the to_compact factor must be a power of 1000; defined names that read as prefix + unit compact like the spelled-out prefix.",
+        note="Two known findings: to_compact AssertionError for names with two readings (rads, dtex); to_reduced_units with non-terminating merged exponents in float/Decimal registries. to_preferred is not run in the Decimal registry (the MIP solver rejects Decimal). Later additions: pairs of dimensionless units count as mergeable; float-range domain restriction; the to_compact factor must be a power of 1000; defined names that read as prefix + unit compact like the spelled-out prefix. Round 7: in-place twins on integer arrays.",
         design="5/C15"),
     "C16": dict(
         technique="Hypothesis over a recipe table covering the handled NumPy functions/ufuncs/methods (names read at run time): metamorphic relation (same physical arrays in two unit assignments) + differential against NumPy on root magnitudes with a semantic-class dimension oracle; error-clause enumeration; offset-unit cases compared with the operator forms",
@@ -153,7 +153,7 @@ CHECKS = {
              "functions are compared in their own unit only; order/equality-sensitive ones use bit/byte/KiB so that re-expression is exact. Every same-dimension "
              "slot is also filled with another dimension (must raise DimensionalityError); offset-unit arrays are run through 16 operations in both registry "
              "modes and operand orders and compared with the operator form; inputs must be unchanged after non in-place calls; names without a recipe are listed in evidence.",
-        note="23 known-finding classes with two root causes: (1) mod/remainder/fmod/floor_divide do not convert their operands (pinned by the existing test-suite), (2) the ufunc implementations bypass the offset-unit rules. Functions without a recipe are reported, not claimed. Later additions: optional unit arguments given late (clip/nan_to_num/max/min/sum initial), reductions with axis+where, quantity exponents; recipes referenced by name; histories of ndarray-method calls and in-place state changes compared with fresh quantities (sub-check methods); values of the pool units written in the check (not read from the definition files), more angle units. Round 6: a quarter of the calls run in an auto_reduce_dimensions=True registry with operand units that repeat a dimension.",
+        note="23 known-finding classes with two root causes: (1) mod/remainder/fmod/floor_divide do not convert their operands (pinned by the existing test-suite), (2) the ufunc implementations bypass the offset-unit rules. Functions without a recipe are reported, not claimed. Later additions: optional unit arguments given late (clip/nan_to_num/max/min/sum initial), reductions with axis+where, quantity exponents; recipes referenced by name; histories of ndarray-method calls and in-place state changes compared with fresh quantities (sub-check methods); values of the pool units written in the check (not read from the definition files), more angle units. Round 6: a quarter of the calls run in an auto_reduce_dimensions=True registry with operand units that repeat a dimension. Round 7: 0-d and scalar-Quantity exponents, force_ndarray registries, bare boolean operands.",
         design="5/C16"),
     "C17": dict(
         technique="Hypothesis-generated signatures, unit specifications, call shapes and arguments for ureg.wraps / ureg.check, checked against an independent re-implementation of the documented contract with exact factors from an independent definition reader; enumeration of decoration-time errors",
@@ -173,7 +173,7 @@ CHECKS = {
              "must keep type, public fields and message. Every binary operator and ordering between Quantity/Unit objects of two registries (fresh, deep-copied, "
              "application) must raise ValueError. Edits on either side of a deep-copied pair (definitions, contexts, groups, systems, default system/format) must "
              "never change the other side's battery, and objects reached through the copy must belong to it. The lazily built default registry must answer like an explicit one.",
-        note="Round-trip equality is judged on content, not with == (unpickled objects belong to the application registry by design). Unit ** Quantity and in-place operators on Units are not operations and are skipped. Later additions: Measurements in the ownership list of deep copies, both ways of replacing the application registry; the core of the cross-registry space is enumerated (operators x operand kinds incl. attribute-obtained units x fresh/copy/copy-of-copy x side); round trips in Fraction/Decimal registries with fractional exponents (exponent type compared).",
+        note="Round-trip equality is judged on content, not with == (unpickled objects belong to the application registry by design). Unit ** Quantity and in-place operators on Units are not operations and are skipped. Later additions: Measurements in the ownership list of deep copies, both ways of replacing the application registry; the core of the cross-registry space is enumerated (operators x operand kinds incl. attribute-obtained units x fresh/copy/copy-of-copy x side); round trips in Fraction/Decimal registries with fractional exponents (exponent type compared). Round 7: the battery uses a prefix defined after the copy.",
         design="5/C18"),
     "C19": dict(
         technique="Hypothesis over constructor forms x unit pairs x values/errors over 60 decades (oracle: the numbers supplied and the slope from an independent definition reader); Hypothesis expression trees over independent and repeated measurements against an own first-order propagation model (partial derivatives per source variable); notation and format round-trips",
@@ -185,7 +185,7 @@ CHECKS = {
              "dimension and standard deviation must agree (1e-7 of the uncancelled contributions), dimension mismatches must raise. All +/- and a(b) notations x sign "
              "x exponent must parse to the measurement built from the same numbers; all format specs must render without altering the object, plain-text ones parse back "
              "within the printed precision. Sampling only.",
-        note="First-order propagation is the contract of the uncertainties package; higher-order effects are outside the model. Format round-trips are judged at the printed precision (1-2 significant digits of the uncertainty). Later additions: negative relative/Quantity errors, prefixed source units, unit-rewriting helpers on measurements compared with the plain quantity; two parses of one text are independent measurements.",
+        note="First-order propagation is the contract of the uncertainties package; higher-order effects are outside the model. Format round-trips are judged at the printed precision (1-2 significant digits of the uncertainty). Later additions: negative relative/Quantity errors, prefixed source units, unit-rewriting helpers on measurements compared with the plain quantity; two parses of one text are independent measurements. Round 7: uncertain zero is not the exact zero; nan on one side of an exponent notation.",
         design="5/C19"),
     "C20": dict(
         technique="complete enumeration of an independently curated table of ~260 standard values x spellings x {Fraction, float} registries (differential oracle: the table)",
@@ -193,7 +193,7 @@ CHECKS = {
              "troy/apothecary, pressure/energy/power units, CGS, information, temperature probe points, CODATA 2022 values) is converted to an SI base-unit "
              "expression and compared with the tabulated value: == in the Fraction registry for exact entries, 1e-45 for pi-dependent ones, 10x CODATA "
              "uncertainty for derived constants, ulp tolerance in float; names, symbols and spellings are checked too. The table is finite and enumerated completely.",
-        note="The table was written offline from memory of the standards and cross-checked by consistency relations; units without an international definition are left out. Later additions: prefix symbols on bar/bit/byte before and after first use, explicit-system queries interleaved with default-system ones (SI base units required); prefix symbol + unit symbol of standard units; defined names reading as prefix + unit; derived dimension names and coherence of the SI special-name units (oracle/dimtable.py). Round 6: standard values after refused redefinitions (on_redefinition='raise').",
+        note="The table was written offline from memory of the standards and cross-checked by consistency relations; units without an international definition are left out. Later additions: prefix symbols on bar/bit/byte before and after first use, explicit-system queries interleaved with default-system ones (SI base units required); prefix symbol + unit symbol of standard units; defined names reading as prefix + unit; derived dimension names and coherence of the SI special-name units (oracle/dimtable.py). Round 6: standard values after refused redefinitions (on_redefinition='raise'). Round 7: table entries also with Fraction(1) / Decimal(1) magnitudes in the float registry.",
         design="5/C20"),
 }
 
